@@ -102,10 +102,11 @@ fn run_prop(prop: &str, tier: Tier, seed: u64) -> i32 {
                 tier,
                 seed,
                 "exploration",
-                "E1 histories (appends, batches, rejected operations, consuming reads, peeks, offset-addressed reads, reopen events) with a count probe after every operation and count-map probes; oracle: count == appended - consumed per the FIFO model (after a restart only in StrictlyAtOnce mode). Non-trivial = a count probe in a history that also has a rejected operation, a zero-length entry returned by a batch read, a restart with a tail cursor, a rotation or an offset-addressed read.",
+                "E1 histories (appends, batches, rejected operations, consuming reads, peeks, offset-addressed reads, reopen events) with a count probe after every operation and count-map probes; oracle: count == appended - consumed per the FIFO model (after a restart only in StrictlyAtOnce mode). Non-trivial = a count probe in a history that also has a rejected operation, a zero-length entry returned by a batch read, a restart with a tail cursor, a rotation or an offset-addressed read. Concurrent clause (search concurrent-quiescent-count): generated 2-3 thread producer/consumer programs run under the H2 token scheduler with a generated schedule; after all threads are joined the count of every topic must equal successfully appended minus returned entries; non-trivial there = operations of different threads overlapped in time.",
                 &["counts after an AtLeastOnce restart are not judged (the property does not promise them)"],
             );
             props::seq::c15(&ctx);
+            props::conc::c15_concurrent(&ctx, tier.pick(500, 20_000));
             ctx.finish(tier.pick(40, 400))
         }
         "C06" => {
@@ -202,6 +203,18 @@ fn run_prop(prop: &str, tier: Tier, seed: u64) -> i32 {
                 &["same process-crash model as C07"],
             );
             props::crash::c09(&ctx);
+            ctx.finish(tier.pick(100, 2000))
+        }
+        "C05" => {
+            let ctx = Ctx::new(
+                "C05",
+                tier,
+                seed,
+                "exploration",
+                "generated concurrent cases executed under the H2 token scheduler (one registered thread runs at a time; at each of the engine's lock-free yield points the generated schedule picks the next runnable thread): sequential prefill that leaves a generated amount of room in the writer's active block (so rotations happen during the race), 2-4 thread programs of 1-10 operations (append, batch append of 2-5, read_next(true), batch_read(budget,true)) on 1-2 topics, schedules built from (thread, run-length) segments, StrictlyAtOnce and AtLeastOnce, fd and mmap, then a sequential generated drain. A second engine enumerates, for generated two-thread programs of <=3 operations, every schedule with at most two preemptions at every combination of yield-point positions. Oracle: exactly-once multiset (delivered == successfully appended, entries of failed appends never delivered), per-producer order inside every read result and between reads ordered in real time (logical invoke/return stamps), batch contiguity inside each read result and in the drained sequence of the producers-only variant. Non-trivial = two consuming reads on one topic overlap in time and both deliver entries, or reads overlap while the writer is within a few KiB of its block end, or (producers-only variant) appends of different threads overlap. Distinct = distinct (program, schedule).",
+                &["H2 yield points sit only where the engine holds no lock; true parallel data races inside a critical section are outside this schedule space", "reads that overlap in time are not ordered against each other"],
+            );
+            props::conc::c05(&ctx);
             ctx.finish(tier.pick(100, 2000))
         }
         "C04" => {
